@@ -279,4 +279,347 @@ theorem noReplCap_ok (v : Gen.Variant) (bytes : List Nat) (budget : Budget) (r :
         simp only at h
         split at h <;> (cases h; simp only [*])
 
+
+/-! ### the queries do not overflow for lengths up to about `usize::MAX / 3` -/
+open EncodingRs.Lemmas.MaxLenArith
+
+theorem gbCount_le (p : GbPending) : gbCount p ≤ 3 := by cases p <;> simp [gbCount]
+
+theorem isoExtraOut_le (s : Iso2022JpSt) : iso2022JpExtraToOutputFromState s ≤ 2 := by
+  unfold iso2022JpExtraToOutputFromState
+  repeat' split
+  all_goals omega
+
+theorem isoInNat_le (s : Iso2022JpSt) (n : Nat) : isoInNat s n ≤ n + 2 := by
+  unfold isoInNat
+  repeat' split
+  all_goals omega
+
+theorem utf16Additional_le (s : Utf16St) : utf16AdditionalFromState s ≤ 4 := by
+  unfold utf16AdditionalFromState
+  repeat' split
+  all_goals omega
+
+theorem leadLenNat_le (s : Option Nat) (n : Nat) : leadLenNat s n ≤ n + 1 := by
+  unfold leadLenNat; split <;> omega
+
+theorem eucJpLenNat_le (s : EucJpSt) (n : Nat) : eucJpLenNat s n ≤ n + 1 := by
+  unfold eucJpLenNat; split <;> omega
+
+theorem utf8Extra_le (s : Utf8St) (hi : EncodingRs.Lemmas.Scalar.utf8Inv s) : utf8ExtraFromState s ≤ 3 := by
+  unfold utf8ExtraFromState
+  unfold EncodingRs.Lemmas.Scalar.utf8Inv at hi
+  split
+  · omega
+  · rcases hi with h | h | h | h | h | h | h <;> omega
+
+/-- in every state satisfying the invariant (every reachable state), the value of the two UTF-8
+queries and the largest intermediate result of their checked arithmetic are at most `3 * n + 13` -/
+theorem variantQuery_le (q : Query) (hq : q = .utf8 ∨ q = .utf8NoRepl) (v : Gen.Variant)
+    (s : (famOfVariant v).σ) (n : Nat) (hi : variantInv v s) :
+    variantNat q v s n ≤ 3 * n + 13 ∧ variantOvf q v s n ≤ 3 * n + 13 := by
+  rcases hq with rfl | rfl
+  · cases v with
+    | singleByte t a b c =>
+      show singleByteUtf8Nat s n ≤ _ ∧ singleByteUtf8Nat s n ≤ _
+      unfold singleByteUtf8Nat; omega
+    | utf8 =>
+      have := utf8Extra_le s hi
+      show utf8Utf8Nat s n ≤ _ ∧ utf8Utf8Nat s n ≤ _
+      unfold utf8Utf8Nat; omega
+    | gbk =>
+      have := gbCount_le (s : GbSt).pending
+      show gbUtf8Nat s n ≤ _ ∧ gbUtf8Nat s n ≤ _
+      unfold gbUtf8Nat gbExtraNat; split <;> omega
+    | gb18030 =>
+      have := gbCount_le (s : GbSt).pending
+      show gbUtf8Nat s n ≤ _ ∧ gbUtf8Nat s n ≤ _
+      unfold gbUtf8Nat gbExtraNat; split <;> omega
+    | big5 =>
+      have := leadLenNat_le s n
+      show big5Utf8Nat s n ≤ _ ∧ big5Utf8Nat s n ≤ _
+      unfold big5Utf8Nat; omega
+    | eucJp =>
+      have := eucJpLenNat_le s n
+      show eucJpUtf8Nat s n ≤ _ ∧ eucJpUtf8Nat s n ≤ _
+      unfold eucJpUtf8Nat; omega
+    | iso2022Jp =>
+      have := isoExtraOut_le s
+      have := isoInNat_le s n
+      show isoUtf8Nat s n ≤ _ ∧ isoUtf8Nat s n ≤ _
+      unfold isoUtf8Nat; omega
+    | shiftJis =>
+      have := leadLenNat_le s n
+      show shiftJisUtf8Nat s n ≤ _ ∧ shiftJisUtf8Nat s n ≤ _
+      unfold shiftJisUtf8Nat; omega
+    | eucKr =>
+      have := leadLenNat_le s n
+      show eucKrUtf8Nat s n ≤ _ ∧ eucKrUtf8Nat s n ≤ _
+      unfold eucKrUtf8Nat; omega
+    | replacement =>
+      show replacementUtf8Nat s n ≤ _ ∧ 0 ≤ _
+      unfold replacementUtf8Nat; omega
+    | utf16Be =>
+      have := utf16Additional_le s
+      show utf16Utf8Nat s n ≤ _ ∧ max (utf16SumNat s n) (utf16Utf8Nat s n) ≤ _
+      rw [Nat.max_le]
+      unfold utf16Utf8Nat utf16SumNat; omega
+    | utf16Le =>
+      have := utf16Additional_le s
+      show utf16Utf8Nat s n ≤ _ ∧ max (utf16SumNat s n) (utf16Utf8Nat s n) ≤ _
+      rw [Nat.max_le]
+      unfold utf16Utf8Nat utf16SumNat; omega
+    | userDefined =>
+      show userDefinedUtf8Nat s n ≤ _ ∧ userDefinedUtf8Nat s n ≤ _
+      unfold userDefinedUtf8Nat; omega
+  · cases v with
+    | singleByte t a b c =>
+      show singleByteUtf8NoReplNat s n ≤ _ ∧ singleByteUtf8NoReplNat s n ≤ _
+      unfold singleByteUtf8NoReplNat; omega
+    | utf8 =>
+      have := utf8Extra_le s hi
+      show utf8Utf8NoReplNat s n ≤ _ ∧ utf8Utf8NoReplNat s n ≤ _
+      unfold utf8Utf8NoReplNat; omega
+    | gbk =>
+      have := gbCount_le (s : GbSt).pending
+      show gbUtf8NoReplNat s n ≤ _ ∧ gbUtf8NoReplNat s n ≤ _
+      unfold gbUtf8NoReplNat gbExtraNat; split <;> omega
+    | gb18030 =>
+      have := gbCount_le (s : GbSt).pending
+      show gbUtf8NoReplNat s n ≤ _ ∧ gbUtf8NoReplNat s n ≤ _
+      unfold gbUtf8NoReplNat gbExtraNat; split <;> omega
+    | big5 =>
+      have := leadLenNat_le s n
+      show big5Utf8NoReplNat s n ≤ _ ∧ big5Utf8NoReplNat s n ≤ _
+      unfold big5Utf8NoReplNat; omega
+    | eucJp =>
+      have := eucJpLenNat_le s n
+      show eucJpUtf8NoReplNat s n ≤ _ ∧ eucJpUtf8NoReplNat s n ≤ _
+      unfold eucJpUtf8NoReplNat; omega
+    | iso2022Jp =>
+      have := isoExtraOut_le s
+      have := isoInNat_le s n
+      show isoUtf8NoReplNat s n ≤ _ ∧ isoUtf8NoReplNat s n ≤ _
+      unfold isoUtf8NoReplNat; omega
+    | shiftJis =>
+      have := leadLenNat_le s n
+      show shiftJisUtf8NoReplNat s n ≤ _ ∧ shiftJisUtf8NoReplNat s n ≤ _
+      unfold shiftJisUtf8NoReplNat; omega
+    | eucKr =>
+      have := leadLenNat_le s n
+      show eucKrUtf8NoReplNat s n ≤ _ ∧ eucKrUtf8NoReplNat s n ≤ _
+      unfold eucKrUtf8NoReplNat; omega
+    | replacement =>
+      show replacementUtf8NoReplNat s n ≤ _ ∧ 0 ≤ _
+      unfold replacementUtf8NoReplNat; omega
+    | utf16Be =>
+      have := utf16Additional_le s
+      show utf16Utf8NoReplNat s n ≤ _ ∧ max (utf16SumNat s n) (utf16Utf8NoReplNat s n) ≤ _
+      rw [Nat.max_le]
+      unfold utf16Utf8NoReplNat utf16SumNat; omega
+    | utf16Le =>
+      have := utf16Additional_le s
+      show utf16Utf8NoReplNat s n ≤ _ ∧ max (utf16SumNat s n) (utf16Utf8NoReplNat s n) ≤ _
+      rw [Nat.max_le]
+      unfold utf16Utf8NoReplNat utf16SumNat; omega
+    | userDefined =>
+      show userDefinedUtf8NoReplNat s n ≤ _ ∧ userDefinedUtf8NoReplNat s n ≤ _
+      unfold userDefinedUtf8NoReplNat; omega
+
+/-- hence: for `3 * n + 13 ≤ usize::MAX` the queries answer `Some` (no `.unwrap()` panic) -/
+theorem variantMax_some_of_len (q : Query) (hq : q = .utf8 ∨ q = .utf8NoRepl) (v : Gen.Variant)
+    (s : (famOfVariant v).σ) (n : Nat) (hi : variantInv v s) (hn : 3 * n + 13 ≤ usizeMax) :
+    ∃ Q, variantMax q v s n = some Q ∧ Q ≤ 3 * n + 13 := by
+  obtain ⟨h1, h2⟩ := variantQuery_le q hq v s n hi
+  rw [variantMax_exact]
+  have : variantOvf q v s n ≤ usizeMax := Nat.le_trans h2 hn
+  simp only [this, if_true]
+  exact ⟨_, rfl, h1⟩
+
+/-- conversely a `None` answer means the length is above `(usize::MAX - 13) / 3` -/
+theorem len_of_variantMax_none (q : Query) (hq : q = .utf8 ∨ q = .utf8NoRepl) (v : Gen.Variant)
+    (s : (famOfVariant v).σ) (n : Nat) (hi : variantInv v s) (h : variantMax q v s n = none) :
+    usizeMax < 3 * n + 13 := by
+  apply Nat.lt_of_not_le
+  intro hn
+  obtain ⟨Q, hQ, _⟩ := variantMax_some_of_len q hq v s n hi hn
+  rw [h] at hQ; cases hQ
+
+
+/-! ### the loop of `decode_without_bom_handling`: at most one grow, no panic -/
+
+/-- **no `needed.unwrap()` panic** in the loop for remaining lengths up to `(usize::MAX - 13) / 3`,
+whatever the stop policy -/
+theorem growLoopCap_no_panic (v : Gen.Variant) (ifuel : Nat) :
+    ∀ (fuel : Nat) (s : (famOfVariant v).σ) (src : List Nat) (spare : Nat) (slack : List Nat)
+      (bs : List (List Budget)), Reach v s → (∀ b ∈ src, b < 256) → 3 * src.length + 13 ≤ usizeMax →
+      growLoopCap v ifuel fuel s src spare slack bs ≠ .panic := by
+  intro fuel
+  induction fuel with
+  | zero => intro s src spare slack bs _ _ _ h; simp [growLoopCap] at h
+  | succ fuel ih =>
+    intro s src spare slack bs hr hb hlen h
+    rw [growLoopCap] at h
+    cases hrl : replLoop (famOfVariant v) .utf8 true ifuel s src (bs.headD []) with
+    | none => rw [hrl] at h; cases h
+    | some t =>
+      rw [hrl] at h
+      simp only at h
+      have hr' := replLoop_reach v .utf8 true ifuel s src (bs.headD []) t hr hb hrl
+      cases hres : t.res with
+      | inputEmpty => simp only [hres] at h; cases h
+      | malformed l a => simp only [hres] at h; cases h
+      | outputFull =>
+        simp only [hres] at h
+        obtain ⟨Q, hQ, _⟩ := variantMax_some_of_len .utf8 (Or.inl rfl) v t.st (src.length - t.read)
+          (variant_inv_reachable v t.st hr') (by omega)
+        rw [hQ] at h
+        simp only at h
+        have hb' : ∀ b ∈ src.drop t.read, b < 256 := fun b hb' => hb b (List.mem_of_mem_drop hb')
+        have hlen' : 3 * (src.drop t.read).length + 13 ≤ usizeMax := by rw [List.length_drop]; omega
+        have := ih t.st (src.drop t.read) (max (spare - unitsOfList .utf8 t.out) Q + slack.headD 0) slack.tail bs.tail
+          hr' hb' hlen'
+        split at h
+        · cases h
+        · rename_i hp; exact this hp
+        · cases h
+
+/-- **"we should come here at most once per invocation"**: for EVERY admissible stop policy the loop
+returns after at most two rounds — the capacity after the first `reserve` is at least
+`max_utf8_buffer_length` of the remaining input in the decoder's state, so by C07 the second round
+cannot end with `OutputFull`; each round's replacement loop terminates by C08.  The fuel of the
+model (`2` rounds, `10 * len + 10` inner calls) suffices. -/
+theorem growLoopCap_returns (v : Gen.Variant) (ifuel fuel : Nat) (s : (famOfVariant v).σ) (src : List Nat)
+    (spare : Nat) (slack : List Nat) (bs : List (List Budget))
+    (hr : Reach v s) (hb : ∀ b ∈ src, b < 256) (hif : 10 * src.length + 9 < ifuel) (hf : 2 ≤ fuel)
+    (hadm : GrowAdmissible v ifuel fuel s src spare slack bs) :
+    growLoopCap v ifuel fuel s src spare slack bs ≠ .diverges := by
+  obtain ⟨f, rfl⟩ : ∃ f, fuel = f + 2 := ⟨fuel - 2, by omega⟩
+  intro h
+  rw [growLoopCap] at h
+  simp only [GrowAdmissible] at hadm
+  obtain ⟨t, ht, hres⟩ := variant_replLoop_terminates v .utf8 true ifuel s src (bs.headD []) hif
+  rw [ht] at h
+  simp only at h
+  rcases hres with hres | hres
+  · simp only [hres] at h; cases h
+  · simp only [hres] at h
+    cases hq : variantMax .utf8 v t.st (src.length - t.read) with
+    | none => rw [hq] at h; cases h
+    | some needed =>
+      rw [hq] at h
+      simp only at h
+      have hadm2 := hadm.2 t needed ht hres hq
+      have hr' := replLoop_reach v .utf8 true ifuel s src (bs.headD []) t hr hb ht
+      have hb' : ∀ b ∈ src.drop t.read, b < 256 := fun b hb' => hb b (List.mem_of_mem_drop hb')
+      have hlen : (src.drop t.read).length = src.length - t.read := List.length_drop
+      -- second round
+      rw [growLoopCap] at h
+      obtain ⟨t', ht', hres'⟩ := variant_replLoop_terminates v .utf8 true ifuel t.st (src.drop t.read)
+        (bs.tail.headD []) (by rw [hlen]; omega)
+      rw [ht'] at h
+      simp only at h
+      have hnf : t'.res ≠ .outputFull :=
+        reachable_repl_sufficient .utf8 (Or.inr rfl) v t.st hr' (src.drop t.read) true ifuel (bs.tail.headD [])
+          (max (spare - unitsOfList .utf8 t.out) needed + slack.headD 0) needed t' hb'
+          (by rw [hlen]; exact hq) (by have := Nat.le_max_right (spare - unitsOfList .utf8 t.out) needed; omega)
+          hadm2.1 ht'
+      rcases hres' with hres' | hres'
+      · simp only [hres'] at h; cases h
+      · exact hnf hres'
+
+/-- the number of rounds: a policy that is admissible never makes the loop reserve twice.  Stated on
+the model: with outer fuel 2 the result is the same as with any larger fuel (it is not `diverges`). -/
+theorem growLoopCap_two_rounds (v : Gen.Variant) (ifuel : Nat) (s : (famOfVariant v).σ) (src : List Nat)
+    (spare : Nat) (slack : List Nat) (bs : List (List Budget))
+    (hr : Reach v s) (hb : ∀ b ∈ src, b < 256) (hif : 10 * src.length + 9 < ifuel)
+    (hadm : GrowAdmissible v ifuel 2 s src spare slack bs) :
+    growLoopCap v ifuel 2 s src spare slack bs ≠ .diverges :=
+  growLoopCap_returns v ifuel 2 s src spare slack bs hr hb hif (Nat.le_refl _) hadm
+
+/-! ### the first allocation -/
+
+theorem checkedMin_none (a b : Option Nat) : checkedMin a b = none ↔ a = none ∧ b = none := by
+  cases a <;> cases b <;> simp [checkedMin]
+
+/-- `checked_min(…).unwrap()` of `decode_without_bom_handling` does not panic for lengths up to
+`(usize::MAX - 13) / 3` -/
+theorem firstCapacity_some (v : Gen.Variant) (n rem : Nat) (h : 3 * (n + rem) + 13 ≤ usizeMax) :
+    ∃ c, firstCapacity v n rem = some c := by
+  obtain ⟨Q, hQ, hle⟩ := variantMax_some_of_len .utf8 (Or.inl rfl) v (famOfVariant v).init rem
+    (variantInv_init v) (by omega)
+  cases hc : firstCapacity v n rem with
+  | some c => exact ⟨c, rfl⟩
+  | none =>
+    exfalso
+    unfold firstCapacity at hc
+    simp only at hc
+    rw [checkedMin_none] at hc
+    have h2 := hc.2
+    rw [hQ, addO_some, chk_of_le (by omega)] at h2
+    cases h2
+
+theorem firstCapacityNB_some (v : Gen.Variant) (len : Nat) (h : 3 * len + 13 ≤ usizeMax) :
+    ∃ c, firstCapacityNB v len = some c := by
+  obtain ⟨Q, hQ, hle⟩ := variantMax_some_of_len .utf8 (Or.inl rfl) v (famOfVariant v).init len
+    (variantInv_init v) h
+  cases hc : firstCapacityNB v len with
+  | some c => exact ⟨c, rfl⟩
+  | none =>
+    exfalso
+    unfold firstCapacityNB at hc
+    rw [checkedMin_none] at hc
+    have h2 := hc.2
+    rw [hQ] at h2
+    cases h2
+
+theorem noReplCapacity_some (v : Gen.Variant) (bytes : List Nat) (h : 3 * bytes.length + 13 ≤ usizeMax)
+    (hn : validUpToNoRepl v bytes ≤ bytes.length) : ∃ c, noReplCapacity v bytes = some c := by
+  unfold noReplCapacity
+  split
+  · obtain ⟨Q, hQ, hle⟩ := variantMax_some_of_len .utf8NoRepl (Or.inr rfl) v (famOfVariant v).init
+      (bytes.length - validUpToNoRepl v bytes) (variantInv_init v) (by omega)
+    rw [hQ, addO_some, chk_of_le (by omega)]
+    exact ⟨_, rfl⟩
+  · obtain ⟨Q, hQ, _⟩ := variantMax_some_of_len .utf8NoRepl (Or.inr rfl) v (famOfVariant v).init
+      bytes.length (variantInv_init v) h
+    exact ⟨Q, hQ⟩
+
+/-! ### `oneshot_no_unreachable` -/
+
+/-- the capacity the without-replacement form allocates leaves at least
+`max_utf8_buffer_length_without_replacement(remaining)` spare -/
+theorem noReplSpare_ge (v : Gen.Variant) (bytes : List Nat) (c slack : Nat) (h : noReplCapacity v bytes = some c) :
+    ∃ Q, variantMax .utf8NoRepl v (famOfVariant v).init (noReplInput v bytes).length = some Q ∧
+      Q ≤ noReplSpare v bytes c slack := by
+  unfold noReplCapacity at h
+  unfold noReplSpare noReplInput
+  by_cases hb : isPotentiallyBorrowable v = true
+  · simp only [hb, if_true] at h ⊢
+    rw [List.length_drop]
+    cases hq : variantMax .utf8NoRepl v (famOfVariant v).init (bytes.length - validUpToNoRepl v bytes) with
+    | none => rw [hq] at h; cases h
+    | some Q =>
+      rw [hq, addO_some] at h
+      have := (chk_eq_some.mp h).2
+      exact ⟨Q, rfl, by omega⟩
+  · simp only [hb, Bool.false_eq_true, if_false] at h ⊢
+    exact ⟨c, h, by omega⟩
+
+/-- **the `unreachable!()` arm is never reached**: the single raw call of
+`decode_without_bom_handling_and_without_replacement`, made by a fresh decoder into the spare
+capacity the code computed, does not return `OutputFull` under ANY admissible stop policy -/
+theorem noRepl_call_not_full (v : Gen.Variant) (bytes : List Nat) (slack : Nat) (budget : Budget) (c : Nat)
+    (hb : ∀ b ∈ bytes, b < 256) (hc : noReplCapacity v bytes = some c)
+    (hadm : NoReplAdmissible v bytes slack budget) :
+    (call (famOfVariant v) .utf8 (famOfVariant v).init (noReplInput v bytes) true budget).res ≠ .outputFull := by
+  obtain ⟨Q, hQ, hle⟩ := noReplSpare_ge v bytes c slack hc
+  have hb' : ∀ b ∈ noReplInput v bytes, b < 256 := by
+    unfold noReplInput
+    split
+    · exact fun b hb' => hb b (List.mem_of_mem_drop hb')
+    · exact hb
+  exact reachable_raw_sufficient .utf8NoRepl v (famOfVariant v).init Reach.init (noReplInput v bytes) true budget
+    (noReplSpare v bytes c slack) Q hb' hQ hle (hadm c hc)
+
 end EncodingRs.Lemmas.OneShotCap
